@@ -359,4 +359,42 @@ example : serverRun P env 700 [5, 9] goodM1 goodM3 ≠ .accept (some [97]) :=
 example : clientRun env clientToken true [7, 9] (m2 0 sub ra [50]) ≠ .accept none :=
   replay_rejected_client env clientToken clientToken true true ra [7, 9] (m2 0 sub ra [50]) none none (by decide) (by decide)
 
+
+/-! ### the same token presented again, later
+
+"Presents a currently valid token" is about the clock of EACH presentation. -/
+
+/-- **validity_is_per_presentation / no revival**: the time test depends on the clock of the presentation
+    and on nothing else, and once a token has expired or passed its maximum age it is refused at every
+    later clock: there is no `now' ≥ now` at which `checkTiming` succeeds again. -/
+theorem expired_or_too_old_is_forever (now now' ma : Int) (c : Claims) (hle : now ≤ now')
+    (h : checkTiming now ma c = .error .expired ∨ checkTiming now ma c = .error .tooOld) :
+    checkTiming now' ma c ≠ .ok () := by
+  intro hok
+  have hv := (checkTiming_ok now' ma c).mp hok
+  unfold TimeValid at hv
+  unfold checkTiming checkTiming.checkIat checkTiming.checkNbf at h
+  obtain ⟨h1, h2, h3⟩ := hv
+  cases he : c.exp <;> cases hi : c.iat <;> cases hn : c.nbf <;> simp only [he, hi, hn] at h h1 h2 h3 <;>
+    (repeat' split at h) <;> simp at h <;> omega
+
+/-- **validity window is an interval**: valid at two clocks ⇒ valid at every clock in between; with
+    `expired_or_too_old_is_forever` this makes "accepted earlier" no evidence for "valid now" beyond
+    the window itself — a server has to evaluate the test at each presentation. -/
+theorem validity_window_convex (t1 t2 t3 ma : Int) (c : Claims) (h12 : t1 ≤ t2) (h23 : t2 ≤ t3)
+    (h1 : checkTiming t1 ma c = .ok ()) (h3 : checkTiming t3 ma c = .ok ()) :
+    checkTiming t2 ma c = .ok () := by
+  rw [checkTiming_ok] at *
+  unfold TimeValid at *
+  obtain ⟨a1, b1, c1⟩ := h1
+  obtain ⟨a3, b3, c3⟩ := h3
+  cases he : c.exp <;> cases hi : c.iat <;> cases hn : c.nbf <;> simp only [he, hi, hn] at a1 b1 c1 a3 b3 c3 ⊢ <;>
+    (try exact False.elim ‹False›) <;> (refine ⟨?_, ?_, ?_⟩ <;> first | trivial | omega)
+
+/-- accepted at the first presentation, refused at the second (the engine's `aging:*` cases) -/
+example : checkTiming 1000 40 { iat := .num 961, exp := .num 5000 } = .ok () ∧
+          checkTiming 1002 40 { iat := .num 961, exp := .num 5000 } = .error .tooOld ∧
+          checkTiming 1000 40 { iat := .num 1000, exp := .num 1002 } = .ok () ∧
+          checkTiming 1002 40 { iat := .num 1000, exp := .num 1002 } = .error .expired := by decide
+
 end Cedar.C11
